@@ -43,7 +43,7 @@ pub struct Case {
 #[derive(Clone, Copy)]
 pub struct C02;
 
-pub const BOMB_KINDS: [&str; 12] = ["nested_with_delimiters", "nested_members", "nested_bare", "nested_unclosed", "nested_in_set", "nested_named_begins", "nested_named_members", "nested_seeded", "wide_set", "many_groups", "many_attrs", "wide_collection"];
+pub const BOMB_KINDS: [&str; 13] = ["staircase", "nested_with_delimiters", "nested_members", "nested_bare", "nested_unclosed", "nested_in_set", "nested_named_begins", "nested_named_members", "nested_seeded", "wide_set", "many_groups", "many_attrs", "wide_collection"];
 
 fn elem(out: &mut Vec<u8>, tag: u8, name: &[u8], value: &[u8]) {
     out.push(tag);
@@ -108,6 +108,24 @@ pub fn bomb(kind: &str, n: u32) -> Vec<u8> {
                 elem(&mut b, 0x37, b"", b"");
             }
         }
+        "staircase" => {
+            // n levels of unnamed member/begin pairs with a bare group delimiter every 100 levels (nothing named
+            // follows the delimiter, so the open collections simply carry on in the next group), a *named* scalar at
+            // the bottom, then n ends
+            elem(&mut b, 0x34, b"a", b"");
+            for i in 1..n {
+                if i % 100 == 0 {
+                    b.push(if (i / 100) % 2 == 1 { 0x02 } else { 0x04 });
+                }
+                elem(&mut b, 0x4a, b"", b"k");
+                elem(&mut b, 0x34, b"", b"");
+            }
+            elem(&mut b, 0x4a, b"", b"k");
+            elem(&mut b, 0x21, b"z", &[0, 0, 0, 1]);
+            for _ in 0..n {
+                elem(&mut b, 0x37, b"", b"");
+            }
+        }
         "nested_with_delimiters" => {
             // a delimiter byte every 100 levels inside the unterminated nesting
             elem(&mut b, 0x34, b"a", b"");
@@ -144,7 +162,7 @@ pub fn bomb(kind: &str, n: u32) -> Vec<u8> {
             elem(&mut b, 0x34, b"a", b"");
             let mut open = 1usize;
             for _ in 1..depth {
-                let r = crate::rng::splitmix(&mut x) % 7;
+                let r = crate::rng::splitmix(&mut x) % 9;
                 match r {
                     0 => {
                         elem(&mut b, 0x4a, b"", b"m");
@@ -162,6 +180,21 @@ pub fn bomb(kind: &str, n: u32) -> Vec<u8> {
                         open += 1;
                     }
                     3 => {
+                        elem(&mut b, 0x34, b"", b"");
+                        open += 1;
+                    }
+                    7 => {
+                        // a bare group delimiter: nothing named follows, the open collections carry on
+                        b.push([0x01u8, 0x02, 0x04, 0x05][(crate::rng::splitmix(&mut x) % 4) as usize]);
+                        elem(&mut b, 0x4a, b"", b"m");
+                        elem(&mut b, 0x34, b"", b"");
+                        open += 1;
+                    }
+                    8 => {
+                        // a named scalar inside the nesting (starts a new attribute while collections are open)
+                        elem(&mut b, 0x4a, b"", b"v");
+                        elem(&mut b, 0x21, b"z", &[0, 0, 0, 2]);
+                        elem(&mut b, 0x4a, b"", b"m");
                         elem(&mut b, 0x34, b"", b"");
                         open += 1;
                     }
@@ -229,11 +262,11 @@ fn bombs(tier: Tier) -> Vec<(&'static str, u32)> {
         Tier::Quick => &[64, 1000, 20_000, 100_000],
         Tier::Thorough => &[8, 64, 129, 500, 1000, 4000, 9000, 20_000, 50_000, 100_000],
     };
-    for k in ["nested_members", "nested_bare", "nested_unclosed", "nested_in_set", "nested_named_begins", "nested_named_members", "nested_with_delimiters"] {
+    for k in ["nested_members", "nested_bare", "nested_unclosed", "nested_in_set", "nested_named_begins", "nested_named_members", "nested_with_delimiters", "staircase"] {
         for &d in depths {
             // keep every bomb <= 1 MiB
             let per = match k {
-                "nested_members" | "nested_unclosed" | "nested_named_members" | "nested_with_delimiters" => 17,
+                "nested_members" | "nested_unclosed" | "nested_named_members" | "nested_with_delimiters" | "staircase" => 17,
                 "nested_named_begins" => 18,
                 "nested_in_set" => 31,
                 _ => 10,
